@@ -30,7 +30,7 @@ def gen_plan(base_seed, i, tier):
     rows = common.pick_rows(rng, n, w)
     if rng.random() < 0.3:
         rows.append(rng.choice(rows))  # duplicate
-    K = 3 if tier == "quick" else 6
+    K = 3 if tier == "quick" else (6 if len(rows) <= 6 else 4)
     ctxs = []
     for _ in range(K):
         perm = list(range(len(rows)))
